@@ -315,8 +315,10 @@ def _playback(scratch, h: Harness):
             break
     tname = pick or prefix
     panic = re.findall(r"panicked at ([^\n]*)\n([^\n]*)", t2)
-    if synthesized:
-        values = [{"as_int": "(no symbolic input: concrete case inside the harness)", "bytes": []}] if confirmed else None
+    if (synthesized or not values) and confirmed:
+        values = [{"as_int": "(no symbolic input: concrete case inside the harness)", "bytes": []}]
+    elif synthesized:
+        values = None
     return {"confirmed": confirmed, "values": values, "test": test, "test_name": tname,
             "native_panic": [" ".join(p) for p in panic][:3],
             "playback_cmd": " ".join(cmd2), "log": t2[-2500:]}
